@@ -219,6 +219,8 @@ def run(chk, facts_dir, tier):
                     mirror = True
     if mirror:
         chk.ok("R3.6", "reverse start index is len - 1 - offsets_index", sn.where())
+    elif any(c_ in prog.bodies and c_.startswith("sierradb::") for _, t_ in sn.calls() for c_ in [sn.callee(t_) or sn.callee_decl(t_) or ""]):
+        raise Inconclusive("SegmentIter::new: the reverse start index is computed by a helper; re-read it")
     else:
         chk.fail("R3.6", sn.path, "no-mirror", "SegmentIter::new no longer positions a reverse scan at len - 1 - offsets_index", sn)
     n6 = 0
